@@ -10,8 +10,8 @@ EXTENDS BitswapMQ, Json
 
 CONSTANT Devs
 Trace == ndJsonDeserialize("trace.ndjson")
-VARIABLES l, ph, pop, dev
-tvars == <<vars, l, ph, pop, dev>>
+VARIABLES l, ph, pop, dev, devAll     \* dev: as-built alternatives used in this run; devAll: in the whole trace
+tvars == <<vars, l, ph, pop, dev, devAll>>
 ASSUME TLCSet(1, 0)
 
 Procs == 1..3
@@ -34,17 +34,17 @@ ResetTo(s, n) ==
     /\ msg' = [c \in Cids |-> NoEntry] /\ markP' = {} /\ markB' = {}
     /\ held' = [c \in Cids |-> 0] /\ cwP' = [c \in Cids |-> 0] /\ cwB' = [c \in Cids |-> FALSE]
     /\ sh' = s /\ maxN' = n /\ ops' = 0 /\ rbs' = 0
-    /\ ph' = [p \in Procs |-> "idle"] /\ pop' = [p \in Procs |-> NoOp] /\ dev' = {}
+    /\ ph' = [p \in Procs |-> "idle"] /\ pop' = [p \in Procs |-> NoOp] /\ dev' = {} /\ UNCHANGED devAll
 
 TInit == /\ Init /\ sh = TRUE /\ maxN = Unbounded
-         /\ l = 1 /\ ph = [p \in Procs |-> "idle"] /\ pop = [p \in Procs |-> NoOp] /\ dev = {}
+         /\ l = 1 /\ ph = [p \in Procs |-> "idle"] /\ pop = [p \in Procs |-> NoOp] /\ dev = {} /\ devAll = {}
 
 TReset == IsEvent("Reset") /\ ResetTo(Ev.sh, IF Ev.maxN = 0 THEN Unbounded ELSE Ev.maxN)
 
 TInvoke == /\ IsEvent("Invoke") /\ ph[Ev.p] = "idle"
            /\ ph' = [ph EXCEPT ![Ev.p] = "inv"]
            /\ pop' = [pop EXCEPT ![Ev.p] = [op |-> Ev.op, wb |-> Ev.wb, wh |-> Ev.wh, ks |-> Ev.ks]]
-           /\ UNCHANGED <<vars, dev>>
+           /\ UNCHANGED <<vars, dev, devAll>>
 Section(o, ab) == CASE o.op = "bcst" -> BcstSection(o.ks, ab)
                     [] o.op = "wants" -> WantsSection(o.wb, o.wh, ab)
                     [] o.op = "cancels" -> CancelsSection(o.ks)
@@ -56,18 +56,18 @@ ProdAtomic(p) ==
          /\ LET q == Section(pop[p], ab) IN
               /\ Producer(q)
               /\ ph' = [ph EXCEPT ![p] = IF q.sig THEN "sig" ELSE "done"]
-         /\ dev' = IF ab THEN dev \cup {DReAdd} ELSE dev
+         /\ dev' = (IF ab THEN dev \cup {DReAdd} ELSE dev) /\ devAll' = (IF ab THEN devAll \cup {DReAdd} ELSE devAll)
     /\ UNCHANGED <<ops, pop>>
-ProdSignal(p) == /\ Silent /\ ph[p] = "sig" /\ Signal /\ ph' = [ph EXCEPT ![p] = "done"] /\ UNCHANGED <<pop, dev>>
+ProdSignal(p) == /\ Silent /\ ph[p] = "sig" /\ Signal /\ ph' = [ph EXCEPT ![p] = "done"] /\ UNCHANGED <<pop, dev, devAll>>
 TReturn == /\ IsEvent("Return") /\ ph[Ev.p] = "done" /\ ph' = [ph EXCEPT ![Ev.p] = "idle"]
-           /\ UNCHANGED <<vars, pop, dev>>
+           /\ UNCHANGED <<vars, pop, dev, devAll>>
 
 \* unlogged loop steps
 LoopSilent == /\ Silent /\ (StartCycle \/ Snapshot \/ BuildNone \/ OnSent \/ Count \/ DoRefresh(FALSE))
-              /\ UNCHANGED <<ph, pop, dev>>
+              /\ UNCHANGED <<ph, pop, dev, devAll>>
 RefreshDev == /\ DRefresh \in Devs /\ Silent /\ DoRefresh(TRUE)
               /\ (\E c \in Cids : (bs[c].t # 0 /\ bAt[c]) \/ (ps[c].t # 0 /\ pAt[c]))
-              /\ dev' = dev \cup {DRefresh} /\ UNCHANGED <<ph, pop>>
+              /\ dev' = dev \cup {DRefresh} /\ devAll' = devAll \cup {DRefresh} /\ UNCHANGED <<ph, pop>>
 
 TBuild == /\ IsEvent("Build")
           /\ \/ Ev.kind = "cancel" /\ BuildCancel(Ev.c)
@@ -75,7 +75,7 @@ TBuild == /\ IsEvent("Build")
                 /\ snapP[nP + 1] = [c |-> Ev.c, t |-> Ev.t, k |-> Ev.k] /\ Ev.sdh
              \/ /\ Ev.kind = "entry" /\ BuildBcst
                 /\ snapB[nB + 1].c = Ev.c /\ snapB[nB + 1].k = Ev.k /\ Ev.t = WireType("b", 1) /\ ~Ev.sdh
-          /\ UNCHANGED <<ph, pop, dev>>
+          /\ UNCHANGED <<ph, pop, dev, devAll>>
 
 MarkDiffers == \E i \in 1..nP : WlCanRemoveType(pp, snapP[i].c, snapP[i].t) /\ pp[snapP[i].c].t # snapP[i].t
 DevName(f) == IF f = "Mark" THEN DMark ELSE DEmpty
@@ -84,19 +84,19 @@ TFinish == /\ IsEvent("Finish")
                 /\ "Mark" \in ab => MarkDiffers
                 /\ Finish(ab)
                 /\ "Empty" \in ab => (pc' = "rest" /\ ~work' /\ PendingWork' > 0)
-                /\ dev' = dev \cup {DevName(f) : f \in ab}
+                /\ dev' = dev \cup {DevName(f) : f \in ab} /\ devAll' = devAll \cup {DevName(f) : f \in ab}
            /\ Ev.empty = (pc' = "rest")
            /\ UNCHANGED <<ph, pop>>
 
 EntrySet == {[c |-> c, cancel |-> msg[c].cancel, t |-> msg[c].t, sdh |-> msg[c].sdh, k |-> msg[c].k] : c \in {x \in Cids : msg[x].t # 0}}
 TSend == /\ IsEvent("Send") /\ Send
          /\ ToSet(Ev.entries) = EntrySet /\ Len(Ev.entries) = Cardinality(EntrySet)
-         /\ UNCHANGED <<ph, pop, dev>>
+         /\ UNCHANGED <<ph, pop, dev, devAll>>
 
-TRbInvoke == IsEvent("RbInvoke") /\ RebroadcastReq /\ UNCHANGED <<ph, pop, dev>>
-TRbReturn == IsEvent("RbReturn") /\ UNCHANGED <<vars, ph, pop, dev>>
+TRbInvoke == IsEvent("RbInvoke") /\ RebroadcastReq /\ UNCHANGED <<ph, pop, dev, devAll>>
+TRbReturn == IsEvent("RbReturn") /\ UNCHANGED <<vars, ph, pop, dev, devAll>>
 TIdle == /\ IsEvent("Idle") /\ Idle /\ \A p \in Procs : ph[p] = "idle"
-         /\ UNCHANGED <<vars, ph, pop, dev>>
+         /\ UNCHANGED <<vars, ph, pop, dev, devAll>>
 
 TNext == \/ TReset \/ TInvoke \/ TReturn \/ TBuild \/ TFinish \/ TSend \/ TRbInvoke \/ TRbReturn \/ TIdle
          \/ LoopSilent \/ RefreshDev
@@ -107,7 +107,8 @@ TSpec == TInit /\ [][TNext]_tvars
 TConverged == dev = {} => Converged
 TWantNeverUnsent == dev = {} => WantNeverUnsent
 TCancelNeverLeftActive == dev = {} => CancelNeverLeftActive
-DevReport == l <= Len(Trace) \/ \A d \in dev : PrintT(<<"DEV_USED", d>>)
+\* every accepting path reports the set of as-built alternatives it used; the runner keeps a smallest one
+DevReport == l <= Len(Trace) \/ PrintT(<<"DEV_SET", devAll>>)
 
 TraceConstraint == TLCSet(1, IF l - 1 > TLCGet(1) THEN l - 1 ELSE TLCGet(1))
 TracePost == PrintT(<<"TRACE_HWM", TLCGet(1)>>)
